@@ -182,7 +182,50 @@ func c09LRUSpecs() []*edt.Spec {
 		back  = "List.Back(" + list + ")"
 		rem   = "List.Remove(" + list + ", " + back + ")"
 	)
-	return []*edt.Spec{{
+	const (
+		ent  = "lookup($cache.store, $publicKey)"
+		elem = ent + ".element"
+	)
+	getSpec := &edt.Spec{
+		// a hit promotes the entry to most-recently-used UNCONDITIONALLY and returns its key; a miss changes nothing
+		Pkg: "primitives/ed25519/extra/cache", Func: "(*lruCache).getLocked", MinPaths: 2,
+		Vars: map[string]string{"isnil(" + ent + ")": "miss"},
+		Classify: func(p *edt.Path, out string, e *edt.Env) string {
+			switch {
+			case out == "nil" && len(p.Final) == 0:
+				return "miss"
+			case strings.HasSuffix(out, ".publicKey)") || strings.HasSuffix(out, ".publicKey"):
+				return "hit"
+			}
+			return ""
+		},
+		Formula: map[string]func(e *edt.Env) edt.Tri{
+			"miss": func(e *edt.Env) edt.Tri { return e.V("miss") },
+			"hit":  func(e *edt.Env) edt.Tri { return edt.Not(e.V("miss")) },
+		},
+		Extra: func(p *edt.Path, out, class string, e *edt.Env, ab func(string) string) string {
+			if class != "hit" {
+				return ""
+			}
+			l, ok := p.Final["$cache.list"]
+			if !ok {
+				return "a hit does not touch the recency list: the entry is not promoted to most-recently-used"
+			}
+			ls := l.String()
+			relinked := "List.PushFront(List.Remove(" + elem + "), " + ent + ")"
+			switch {
+			case ls == relinked:
+				if f, ok := p.Final[elem]; !ok || f.String() != relinked {
+					return "the entry does not record its new list element after being re-linked"
+				}
+			case strings.HasPrefix(ls, "List.MoveToFront(") && strings.Contains(ls, elem):
+			default:
+				return "a hit must move exactly the hit entry's element to the front of the recency list: got " + clip(ls, 240)
+			}
+			return ""
+		},
+	}
+	return []*edt.Spec{getSpec, {
 		Pkg: "primitives/ed25519/extra/cache", Func: "(*lruCache).Put", Opaque: []string{"lruCache.getLocked"}, MinPaths: 3,
 		Vars: map[string]string{
 			"isnil(ptr($cache))": "miss", // the entry returned by getLocked is nil (rendered through the receiver alias)
